@@ -419,7 +419,7 @@ func main() {
 			"state-roundtrip:"+rn, "terminate-matched:"+rn, "terminate-from-request:"+rn, "default-redirect:"+rn, "storage-redirect:"+rn, "malformed-glob-decided:"+rn)
 	}
 	p := product()
-	rounds := run.N(1, 30)
+	rounds := run.N(1, 24)
 	run.Extra("product_per_round", p)
 	run.Extra("rounds", rounds)
 	if rc := run.ReplayCase(); rc >= 0 {
